@@ -6,6 +6,7 @@ import OttoVerif.C03.Lemmas
 import OttoVerif.C03.LitModel
 import OttoVerif.C03.LitSpec
 import OttoVerif.C03.LitLemmas
+import OttoVerif.C03.Asi
 namespace OttoVerif.C03.Thm
 open OttoVerif.C03 OttoVerif.C03.Spec OttoVerif.C03.Lem
 
@@ -106,6 +107,25 @@ theorem postfix_without_newline (e : E) (hw : wf e = true) (he : isExprHead e = 
     (ht : simpleTarget e = true) (inc : Bool) :
     ∃ n0, ∀ n, n0 ≤ n → parseExpression n true (print (.post inc e) ++ [eofTok]) = some (.post inc e, [eofTok]) :=
   parse_print (.post inc e) (by simp [wf, hw, he, ht]) rfl (by simpa [relChain] using hr)
+
+/-- ASI FLAG: for every token sequence made of "settled" tokens (all token kinds except `throw`, `/`, `/=`, the keywords
+    that leave the scanner's field untouched, and reserved-word tokens) and every placement of line terminators, the flags
+    the scanner model reports are exactly "line terminator (or end of input) before the token ∧ the previous token can end
+    a statement" — in particular after EVERY literal form, identifier, `)`, `]`, `}`, `++`, `--`, this/true/false/null,
+    break/continue/return/debugger. -/
+theorem asi_flags_eq : ∀ (ts : List (Tk × Bool)) (st : Bool), (∀ p ∈ ts, Asi.settled p.1 = true) →
+    Asi.modelFlags st ts = Asi.specFlags st ts
+  | [], _, _ => rfl
+  | (t, nl) :: r, st, h => by
+    have hs : Asi.scanSets t = some (Asi.canEnd t) := by simpa [Asi.settled] using h (t, nl) (by simp)
+    simp only [Asi.modelFlags, Asi.specFlags, hs, Option.getD_some]
+    rw [asi_flags_eq r (Asi.canEnd t) (fun p hp => h p (by simp [hp]))]
+
+/-- every literal kind, identifier and closing token is settled and can end a statement (non-vacuity of `asi_flags_eq`) -/
+example : ∀ s, Asi.settled (.num s) = true ∧ Asi.canEnd (.num s) = true ∧ Asi.settled (.id s) = true ∧ Asi.settled (.str s) = true :=
+  fun _ => ⟨rfl, rfl, rfl, rfl⟩
+example : (Asi.settled (.p .rparen) && Asi.settled (.p .rbrace) && Asi.settled (.p .inc) && Asi.settled (.p .kReturn)
+    && Asi.settled (.p .plus) && !Asi.settled (.p .kThrow) && !Asi.settled (.p .slash) && !Asi.settled (.p .kIn)) = true := by decide
 
 /-- non-vacuity: member/call/new chains mixed with operators -/
 example : let e : E := .asg .assign (.dot (.call (.new_ (.dot (.id "a") "b") (.acons (.num "1") (.acons (.bin .add (.id "x") (.id "y")) .anil))) .anil) "c")
